@@ -207,8 +207,11 @@ func c08CollectTypes() []reflect.Type {
 		for rt.Kind() == reflect.Pointer {
 			rt = rt.Elem()
 		}
-		if rt == reflect.TypeOf(regexp.Regexp{}) || rt == reflect.TypeOf(Path{}) || (rt.Kind() == reflect.Map && rt != c08TypTransports) {
+		if rt == reflect.TypeOf(regexp.Regexp{}) || (rt.Kind() == reflect.Map && rt != c08TypTransports) {
 			return
+		}
+		if rt == reflect.TypeOf(Path{}) {
+			top = true // walked for its parameters, not generated as a value of its own
 		}
 		if !top {
 			if seen[rt] {
@@ -680,12 +683,9 @@ func TestVerifC08RegressDurationMinInt64(t *testing.T) {
 	c08CheckRoundTrips(t, c, "hlsMuxerCloseAfter=MinInt64 sourceOnDemandCloseAfter=MinInt64")
 }
 
-// open finding c08-deprecated-iceservers-append: Validate appends the converted deprecated 'webrtcICEServers'
-// entries on every run, so any API write (which validates a clone) duplicates them.
+// found by this check, fixed by "fix: ... webrtcICEServers ..." (8963777): Validate appended the converted
+// deprecated 'webrtcICEServers' entries on every run, so any API write (which validates a clone) duplicated them.
 func TestVerifC08RegressICEServersAppend(t *testing.T) {
-	if c08Known(c08KeyICE) {
-		t.Skip("listed as known finding " + c08KeyICE)
-	}
 	c := c08Plain(t)
 	c.WebRTCICEServers = &[]string{"stun:a.b:3478"}
 	if err := c.Validate(nil); err != nil {
